@@ -178,6 +178,12 @@ def rule_data_weight_once(F, ev, R, config, rule="R-DATA-WEIGHT-ONCE"):
           and e[3][1][0] == "fnref" and e[3][1][1].endswith("Float::epsilon"))
     ok = ok or (e[0] == "call" and e[1].endswith("Option::unwrap_or") and e[3][0] == ("field", me, br["eps"])
                 and e[3][1][0] == "call" and e[3][1][1].endswith("Float::epsilon"))
+    if not ok and e[0] == "phi" and len(e[1]) == 2:
+        # match / if-let form: the given value on one arm, machine epsilon on the other
+        alts = set(e[1])
+        given = ("payload", ("field", me, br["eps"]), "ok", "0") in alts
+        mach = any(x[0] == "call" and x[1].endswith("Float::epsilon") and not x[3] for x in alts)
+        ok = given and mach
     R.add(rule, config, b.key, "eps=given-or-machine-eps", ok,
           "" if ok else "threshold is `%s`, expected the configured epsilon or machine epsilon" % short(e)[:160], b.j["span"])
     ok = f[pr["model"]] == ("field", me, br["model"])
@@ -939,110 +945,120 @@ def rule_initial_set_params(F, ev, R, config, rule="R-INITIAL-SET-PARAMS"):
 
 
 def rule_problem_build_table(F, ev, R, config, rule="R-PROBLEM-BUILD-TABLE"):
+    """build(): each LevMarBuilderError only under its own condition, Ok only after all
+    validations — wherever the checks live (build() itself or private helpers it calls)"""
     br = builder_roles(F)
     b = build_body(F)
     env = Env(b)
-    g = Guards(ev, b, env)
     me = ("param", b.key, 1)
-    Y = ("payload", ("field", me, br["data"]), "ok", "0")
-    xlen = None
-    atoms = {}
-    for sw in g.switches:
-        t = sw["term"]
+    Yopt = ("field", me, br["data"])
+    Y = ("payload", Yopt, "ok", "0")
+    XL = lambda x: is_call(x, TRAIT_MODEL + "::output_len") and strip_mut(x[3][0])[0] == ("field", me, br["model"])
+    NR = lambda x: is_call(x, "Matrix::nrows") and x[3][0] == Y
+
+    def classify(term):
+        """('zero'|'empty'|'rows'|'weights_fit', truth value of `term` that means the *defect*) or None"""
+        t = term
         neg = False
         while t[0] == "un" and t[1] == "Not":
-            t = t[2]
-            neg = not neg
-        r = canon_rel(sw["term"], True)
+            t, neg = t[2], not neg
+        r = canon_rel(term, True)
         if r and r[0] in ("Eq", "Ne"):
-            ops = {r[1], r[2]}
-            ol = [x for x in ops if is_call(x, TRAIT_MODEL + "::output_len") and x[3][0] == ("field", me, br["model"])]
-            if ol and ("const", "usize", 0) in ops:
-                atoms["zero"] = (sw, r[0] == "Eq")
-            elif ol and any(is_call(x, "Matrix::nrows") and x[3][0] == Y for x in ops):
-                atoms["rows"] = (sw, r[0] == "Ne")  # truth value of the switch operand that means "rows differ"
+            ops = (r[1], r[2])
+            if any(XL(x) for x in ops) and ("const", "usize", 0) in ops:
+                return ("zero", r[0] == "Eq")
+            if any(XL(x) for x in ops) and any(NR(x) for x in ops):
+                return ("rows", r[0] == "Ne")
         if t[0] == "call" and t[1].endswith("::is_empty") and t[3][0] == Y:
-            atoms["empty"] = (sw, not neg)
-        if t[0] == "call" and t[3] and contains(t, lambda x: x == ("field", me, br["weights"])) and t[1].startswith(ADT_WEIGHTS.rsplit("::", 1)[0]) or \
-                (t[0] == "phi" and contains(t, lambda x: x[0] == "payload" and x[2] == "Diagonal")):
-            atoms["weights_fit"] = (sw, not neg)
-    # is_size_correct_for_data_length is local and inlined: its value is φ[true | len(diag) == data_len]
-    for sw in g.switches:
-        t = sw["term"]
-        if "weights_fit" not in atoms and contains(t, lambda x: x[0] == "payload" and x[2] == "Diagonal") and contains(t, lambda x: x == ("field", me, br["weights"])):
-            neg = False
-            tt = t
-            while tt[0] == "un" and tt[1] == "Not":
-                tt = tt[2]
-                neg = not neg
-            atoms["weights_fit"] = (sw, not neg)
+            return ("empty", not neg)
+        if contains(t, lambda x: x[0] == "payload" and x[2] == "Diagonal") and contains(t, lambda x: x == ("field", me, br["weights"])):
+            return ("weights_fit", neg)   # the size test is true when the weights fit
+        return None
+
+    pairs = inlined_envs(ev, env)
+    found = {}
+    err_results = {}
+    for body, e2 in pairs:
+        g = Guards(ev, body, e2)
+        atoms = {}
+        for sw in g.switches:
+            c = classify(sw["term"])
+            if c:
+                atoms.setdefault(c[0], []).append((sw, c[1]))
+                found[c[0]] = sw
+        def defect_edges(name):
+            es = []
+            for sw, defect_truth in atoms.get(name, []):
+                es.append(g.bool_edges(sw, defect_truth))
+            return es
+        spec = {"ZeroLengthVector": ["zero", "empty"], "InvalidLengthOfData": ["rows"], "InvalidLengthOfWeights": ["weights_fit"]}
+        for bi, si, s in body.stmts():
+            if s["k"] == "assign" and s["rv"]["k"] == "agg" and s["rv"].get("adt", "").endswith("LevMarBuilderError"):
+                v = s["rv"]["variant"]
+                if v in spec:
+                    es = []
+                    for a in spec[v]:
+                        es.extend(defect_edges(a))
+                    ok = bool(es) and g.holds_on_all_paths_to(bi, es)
+                    err_results.setdefault(v, []).append((ok, body, s))
+                elif v == "YDataMissing":
+                    cons = consumers(body, s["place"]["l"])
+                    ok = False
+                    if len(cons) == 1 and cons[0]["kind"] == "call" and cons[0]["cid"].rsplit("::", 1)[-1] in ("ok_or",):
+                        recv = ev.operand(e2, cons[0]["term"]["args"][0], (cons[0]["block"], None))
+                        ok = recv == Yopt
+                    else:
+                        # match form: the site lies on the None edge of a test of the data option
+                        es = []
+                        for sw in g.switches:
+                            if sw["term"][0] == "discr" and sw["term"][1] == Yopt:
+                                yes, no = variant_edge(body, sw["block"], "None")
+                                if yes:
+                                    es.append(yes)
+                        ok = bool(es) and g.holds_on_all_paths_to(bi, es)
+                    err_results.setdefault(v, []).append((ok, body, s))
+    for v in ("YDataMissing", "ZeroLengthVector", "InvalidLengthOfData", "InvalidLengthOfWeights"):
+        if v not in err_results:
+            R.bad(rule, config, b.key, "err-only-under-its-condition:" + v, "error variant %s is never produced: the violated requirement is not reported" % v, b.j["span"])
+        for ok, body, s in err_results.get(v, []):
+            R.add(rule, config, body.key, "err-only-under-its-condition:" + v, ok,
+                  "" if ok else "Err(%s) can be returned although its requirement is not violated" % v, s.get("span"))
     # the weight length must be compared with the number of *rows* of the observations
-    if "weights_fit" in atoms:
-        wt = atoms["weights_fit"][0]["term"]
+    if "weights_fit" in found:
+        wt = found["weights_fit"]["term"]
         cmp_ok = False
         seen = []
         for x in walk(wt):
             if x[0] == "bin" and x[1] in ("Eq", "Ne"):
                 for side in (x[2], x[3]):
                     seen.append(side)
-                    if is_call(side, "Matrix::nrows") and side[3][0] == Y:
+                    if NR(side) or (side[0] == "call" and side[1].endswith("Matrix::nrows") and strip_mut(side[3][0])[0] == Y):
                         cmp_ok = True
         R.add(rule, config, b.key, "weights-length-vs-rows", cmp_ok,
               "" if cmp_ok else "the weight length is validated against `%s`, not against the number of rows of the observations: "
               "for several right-hand sides a wrong weight vector passes and the row scaling panics" % [short(x)[:50] for x in seen][:4], b.j["span"])
-    need = ["zero", "empty", "rows", "weights_fit"]
-    for a in need:
-        if a not in atoms:
-            R.bad(rule, config, b.key, "atom:" + a, "validation `%s` not found in build() (the input is not checked)" % a, b.j["span"])
-    if any(a not in atoms for a in need):
-        return
-
-    def edges(a, truth):
-        sw, pos = atoms[a]
-        return g.bool_edges(sw, truth if pos else (not truth))
-
-    # error sites
-    sites = {}
-    ok_sites = []
-    for bi, si, s in b.stmts():
-        if s["k"] == "assign" and s["rv"]["k"] == "agg":
-            rv = s["rv"]
-            if rv.get("adt", "").endswith("LevMarBuilderError"):
-                sites.setdefault(rv["variant"], []).append((bi, s))
-            if rv.get("variant") == "Ok" and s["place"]["l"] == 0:
-                ok_sites.append((bi, s))
-    spec = {
-        "ZeroLengthVector": [edges("zero", True), edges("empty", True)],
-        "InvalidLengthOfData": [edges("rows", True)],
-        "InvalidLengthOfWeights": [edges("weights_fit", False)],
-    }
-    for variant, es in spec.items():
-        for bi, s in sites.get(variant, []):
-            ok = g.holds_on_all_paths_to(bi, es)
-            R.add(rule, config, b.key, "err-only-under-its-condition:" + variant, ok,
-                  "" if ok else "Err(%s) can be returned although its requirement is not violated" % variant, s.get("span"))
-        if variant not in sites:
-            R.bad(rule, config, b.key, "err-only-under-its-condition:" + variant, "error variant %s is never produced" % variant, b.j["span"])
-    # YDataMissing: produced only by ok_or on the builder's data option
-    for bi, s in sites.get("YDataMissing", []):
-        cons = consumers(b, s["place"]["l"])
-        ok = len(cons) == 1 and cons[0]["kind"] == "call" and cons[0]["cid"].endswith("Option::ok_or")
-        if ok:
-            recv = ev.operand(env, cons[0]["term"]["args"][0], (cons[0]["block"], None))
-            ok = recv == ("field", me, br["data"])
-        R.add(rule, config, b.key, "err-only-under-its-condition:YDataMissing", ok,
-              "" if ok else "YDataMissing is not tied to the absence of the observations", s.get("span"))
-    if "YDataMissing" not in sites:
-        R.bad(rule, config, b.key, "err-only-under-its-condition:YDataMissing", "missing observations are not reported", b.j["span"])
-    # Ok dominated by all validations
+    # Ok dominated by all validations (conditions collected interprocedurally)
+    g = Guards(ev, b, env)
+    ok_sites = [(bi, s) for bi, si, s in b.stmts() if s["k"] == "assign" and s["rv"]["k"] == "agg" and s["rv"].get("variant") == "Ok" and s["place"]["l"] == 0]
+    if not ok_sites:
+        R.bad(rule, config, b.key, "ok-site", "build() never returns Ok", b.j["span"])
     for bi, s in ok_sites:
-        for a, truth in (("zero", False), ("empty", False), ("rows", False), ("weights_fit", True)):
-            other = edges(a, not truth)
-            ok = g.holds_on_all_paths_to(bi, [edges(a, truth)]) and bool(edges(a, truth))
-            R.add(rule, config, b.key, "ok-needs:%s=%s" % (a, truth), ok,
-                  "" if ok else "Ok(problem) is reachable without the check `%s`" % a, s.get("span"))
-        ok = contains(ev.ret_val(Env(b)), lambda x: x[0] == "from_residual")
-        R.add(rule, config, b.key, "ok-needs:observations-present", ok, "" if ok else "missing observations do not abort build()", s.get("span"))
+        rels, raw = g.relations_at(bi)
+        have = {"zero": False, "empty": False, "rows": False, "weights_fit": False, "observations-present": False}
+        conds = [(t, tr) for t, tr, sw in raw if isinstance(tr, bool)]
+        for r in rels:
+            conds.append((("bin", r[0], r[1], r[2]), True))
+        for t, tr in conds:
+            c = classify(t)
+            if c and c[1] != tr:
+                have[c[0]] = True
+        for t, tr, sw in raw:
+            if t[0] == "discr" and not isinstance(tr, bool):
+                inner = t[1][1] if t[1][0] == "cf" else t[1]
+                if contains(inner, lambda x: x == Yopt):
+                    have["observations-present"] = True
+        for k2, v in have.items():
+            R.add(rule, config, b.key, "ok-needs:%s" % k2, v, "" if v else "Ok(problem) is reachable without the check `%s`" % k2, s.get("span"))
     # is_size_correct_for_data_length table
     for sb in inherent_methods(F, ADT_WEIGHTS, "is_size_correct_for_data_length"):
         ev.fresh_ctx()
